@@ -403,8 +403,23 @@ func (s *Store) mergeSegStacks(footer *Footer, splicePoint int,
 			}
 		}
 
-		rv.childSegStacks[cName], _ =
+		var childBase *segmentStack
+
+		rv.childSegStacks[cName], childBase =
 			s.mergeSegStacks(childFooter, splicePoint, newStack)
+
+		// The segments of the child collection that stay below the
+		// splice point are what its merge operations above it have to
+		// be resolved against; see writeSegments().
+		if childBase != nil {
+			if rvBase == nil {
+				rvBase = &segmentStack{options: higher.options}
+			}
+			if rvBase.childSegStacks == nil {
+				rvBase.childSegStacks = make(map[string]*segmentStack)
+			}
+			rvBase.childSegStacks[cName] = childBase
+		}
 	}
 
 	return rv, rvBase
@@ -528,6 +543,9 @@ func (s *Store) writeSegments(newSS, base *segmentStack,
 		// recursive writeSegments() calls.
 		//
 		var childSegStackBase *segmentStack
+		if base != nil {
+			childSegStackBase = base.childSegStacks[cName]
+		}
 
 		childFooter, err := s.writeSegments(childSegStack, childSegStackBase,
 			frefCompact, fileCompact, includeDeletes, syncAfterBytes)
